@@ -320,9 +320,8 @@ func ValidateBlock(b *Block) error {
 					if !sidOK(int64(m.RoleSid)) {
 						return fmt.Errorf(where + "role index out of range")
 					}
-					if m.Type < 0 || m.Type > 2 {
-						return fmt.Errorf(where + "undefined member type")
-					}
+					// any int32 is a valid wire value for the member type; values outside
+					// the enum 0..2 mean "a member without a known type" (Elements: Type "")
 				}
 			}
 		}
